@@ -16,7 +16,7 @@ import numpy as np
 from .. import common, pipeline
 from ..gen import pdbfmt, workload
 from ..gen import structures as S
-from ..mon import build, geom, match, torsion
+from ..mon import pkastub, build, geom, match, torsion
 from ..ref import states
 from ..ref import topology as topo
 from ..run import Res
@@ -55,6 +55,10 @@ def cases(tier, seed):
             o += ["--nodebump", "--noopt"]
         elif c < 0.36:
             o.append("--clean")
+        if "--clean" not in o and rng.random() < 0.15:
+            # the pKa route (stubbed pKa source, random table): hydrogens are stripped, states changed, hydrogens
+            # rebuilt and debumped again
+            o += pkastub.titration_opts(rng)
         return o
 
     for rep in range(1 if tier == "quick" else 30):
@@ -79,7 +83,11 @@ def cases(tier, seed):
     rng = random.Random(seed * 77 + 5)
     for i in range(nstress):
         ff = common.FFS[i % 6]
-        out.append({"kind": "run", "w": "synth", "seed": seed * 900001 + i, "ff": ff, "opts": opts(rng, {"ff": ff}),
+        # every stage switch crossed with the pKa route, on inputs where debumping has work to do
+        cyc = [[], ["--nodebump", "--noopt"], ["--nodebump", "--noopt", "pka"], ["pka"], ["--noopt"], ["--nodebump"],
+               ["--noopt", "pka"], ["--nodebump", "pka"]][(i // 6) % 8]
+        o = [f"--ff={ff}"] + [x for x in cyc if x != "pka"] + (pkastub.titration_opts(rng) if "pka" in cyc else [])
+        out.append({"kind": "run", "w": "synth", "seed": seed * 900001 + i, "ff": ff, "opts": o,
                     "p": {"crowd_prob": 0.6, "crowd_heavy_prob": 1.0, "minlen": 5, "maxlen": 9, "na": False, "waters": [0],
                           "hydrogens": ["none", "none", "some"], "variant_prob": 0.05,
                           "pool": ["ARG", "LYS", "GLU", "GLN", "MET", "ILE", "LEU", "TRP", "PHE", "TYR", "HIS", "ASN",
@@ -210,9 +218,12 @@ def run_run(spec, res):
     geom.install()
     m = workload.materialise(spec)
     geom.drain()
-    r = pipeline.run(m["text"], spec["opts"], workname="c04")
+    with pkastub.for_opts(spec["opts"], m["truth"], spec["seed"]) as titr:
+        r = pipeline.run(m["text"], spec["opts"], workname="c04")
     ev, counts = geom.drain()
     res.count("runs")
+    if titr is not None:
+        res.count("pka_route_runs")
     res.count("torsion_calls_invivo", counts["set_dihedral"])
     for u in geom.STATE["unavailable"]:
         res.note("hook_unavailable " + u)
